@@ -24,6 +24,7 @@ import (
 	"strconv"
 	"strings"
 	"sync"
+	"sync/atomic"
 	"unicode/utf8"
 
 	"storj.io/drpc"
@@ -279,7 +280,12 @@ func checkOutcome(c tcase, fail func(key, format string, args ...interface{})) {
 		req.Header.Set("Content-Type", c.ct)
 	}
 	rec := httptest.NewRecorder()
-	drpchttp.New(s).ServeHTTP(rec, req)
+	if atomic.AddUint64(&serveCalls, 1)%3 == 0 {
+		// every third response goes to a ResponseWriter that is nothing more than that (no Flush)
+		drpchttp.New(s).ServeHTTP(plainWriter{rec}, req)
+	} else {
+		drpchttp.New(s).ServeHTTP(rec, req)
+	}
 
 	if s.reqErr != nil {
 		fail("request-rejected", "%s: a well-formed request within the limit was rejected: %v", c, s.reqErr)
@@ -291,6 +297,12 @@ func checkOutcome(c tcase, fail func(key, format string, args ...interface{})) {
 	}
 	body := rec.Body.Bytes()
 	failed := s.outErr != nil
+	// a declared length is a promise about the body that follows, whatever the outcome turned out to be
+	// (over a real connection a wrong one truncates the body or kills the connection)
+	if cl := rec.Header().Get("Content-Length"); cl != "" && cl != fmt.Sprint(len(body)) {
+		fail("content-length-header-differs-from-body", "%s: the response declares Content-Length %s and carries a body of %d bytes (status %d)", c, cl, len(body), rec.Code)
+		return
+	}
 	if !isGrpc(c.ct) {
 		// Twirp style
 		if !failed {
@@ -660,6 +672,15 @@ func jsonEncodings(a *acc) {
 	}
 	a.smp = map[string]interface{}{"batch": a.id}
 }
+
+var serveCalls uint64
+
+// plainWriter hides every optional interface of the recorder.
+type plainWriter struct{ rec *httptest.ResponseRecorder }
+
+func (p plainWriter) Header() http.Header         { return p.rec.Header() }
+func (p plainWriter) Write(b []byte) (int, error) { return p.rec.Write(b) }
+func (p plainWriter) WriteHeader(code int)        { p.rec.WriteHeader(code) }
 
 func errorsUnderTest() map[string]error {
 	base := errors.New("boom")
